@@ -2,7 +2,7 @@
 C43 — catalog model and the information_schema / SHOW views over it (core-only).
 
 Spec = the catalog (what exists) and each view as a function of it. Impl model = the same views
-with the two places where sql/information_schema deviates:
+with the three places where sql/information_schema deviates:
 * `columnKeyImpl`  — sql/information_schema/columns_table.go `getIndexKeyInfo` + `getRowsFromTable`:
   one map filled index by index (PRIMARY first, then by index name: memory.Table.GetIndexes), later
   indexes overwrite earlier ones, *every* column of a non-unique index gets MUL, only the first
@@ -13,13 +13,13 @@ with the two places where sql/information_schema deviates:
 * `privSetMissing` — `triggersRowIter` / `viewsRowIter` return no rows when the session has no
   cached privilege set, which is always the case when account management is disabled (the default
   engine): TRIGGERS and VIEWS are empty although SHOW TRIGGERS / TABLES list the objects.
+* `routinesView` — `routinesRowIter` substitutes an *empty* privilege set for a missing one, so ROUTINES
+  (and SHOW PROCEDURE STATUS, which is answered from it) list nothing with account management disabled.
 
 DDL modelled (memory database semantics as observed through the engine): CREATE / DROP TABLE
 (dropping a table drops its triggers), ADD COLUMN [FIRST | AFTER], DROP COLUMN (of a column no key
 mentions), RENAME COLUMN (keys follow), CREATE / DROP INDEX, ADD / DROP PRIMARY KEY (key columns
 become NOT NULL), CREATE / DROP VIEW, CREATE / DROP TRIGGER.
-* `routinesView` — `routinesRowIter` substitutes an *empty* privilege set for a missing one, so ROUTINES
-  (and SHOW PROCEDURE STATUS, which is answered from it) list nothing with account management disabled.
 
 Key order: a key is a *list* of column names in declaration order, which need not be the column
 order of the table (`PRIMARY KEY (b, a)`); STATISTICS / SHOW INDEX / KEY_COLUMN_USAGE number the key
